@@ -52,10 +52,9 @@ def trimSpace (s : Str) : Str := trimRight (trimLeft s)
 mapping lands in ASCII (U+212A KELVIN SIGN → k, U+0130 → i). Other non-ASCII cased letters are
 outside the alphabet the generators use for case-folded comparisons. -/
 def goLowerChar (c : Char) : Char :=
-  if 'A' ≤ c ∧ c ≤ 'Z' then Char.ofNat (c.toNat + 32)
-  else if c.toNat = 0x212a then 'k'
+  if c.toNat = 0x212a then 'k'
   else if c.toNat = 0x130 then 'i'
-  else c
+  else c.toLower
 def goLower (s : Str) : Str := s.map goLowerChar
 
 /-- `strings.ToUpper` on the same alphabet (U+017F LONG S → S, U+0131 DOTLESS I → I). -/
